@@ -348,6 +348,21 @@ where
                 if idsub.contains('w') || idsub == "all" {
                     target.w = <C as Pairing>::Signature::identity();
                 }
+                // joint linear shift of the share and of w by public amounts: share' = share + a PK_j + b P, w' = w + c H(u, v)
+                if let Some(lin) = v.get("lin").and_then(|l| l.as_array()) {
+                    let (a, bq, c) = (lin[0].as_i64().unwrap_or(0), lin[1].as_i64().unwrap_or(0), lin[2].as_i64().unwrap_or(0));
+                    if (a, bq, c) != (0, 0, 0) {
+                        use blsful::vsss_rs::Share;
+                        let sp = ds.0.as_group_element::<<C as Pairing>::PublicKey>().expect("share point");
+                        let kp = pks.0.as_group_element::<<C as Pairing>::PublicKey>().expect("key share point");
+                        let sp2 = sp + kp * sc::<C>(a) + <C as Pairing>::PublicKey::generator() * sc::<C>(bq);
+                        let mut bts = Vec::<u8>::from(&ds);
+                        bts[1..].copy_from_slice(&enc_k::<C>(&sp2));
+                        ds = SignDecryptionShare::<C>::try_from(bts.as_slice()).expect("share container");
+                        let h = <C as BlsSignCrypt>::compute_w(target.u, &target.v, dst_of::<C>(target.scheme));
+                        target.w += h * sc::<C>(c);
+                    }
+                }
                 let r = ds.verify(&pks, &target);
                 let got = if r.is_ok() { "Ok" } else { "Err" };
                 let want = gets(&v["expect"], "res");
